@@ -612,3 +612,172 @@ theorem step_ok (n : Node) (s : RState) (g : Ghost) (e : Event)
       · rw [microAllS_ack_end _ _ _ (by rfl)]; exact hS1
 
 end Neumann.RaftWal
+
+/-! Part 5: executions with any number of crashes; byte cuts are record-level crashes. -/
+namespace Neumann.RaftWal
+
+def NoSnapAct : Act → Prop
+  | .ev e => NoSnap e
+  | .crash e _ => NoSnap e
+
+/-- the invariant of a running (or just restarted) node -/
+def Inv (σ : Sys) : Prop :=
+  Sync σ.node (fromEntries σ.dur) ∧ WF σ.node.log ∧ Sat (fromEntries σ.dur) σ.ghost
+
+theorem fromEntries_recs (d : List WalEntry) (ms : List Micro) :
+    fromEntries (d ++ recs ms) = microAllS (fromEntries d) ms := by
+  rw [fromEntries_append, microAllS_recs]
+
+theorem inv_init (id : Nat) : Inv (initSys id) := by
+  refine ⟨⟨rfl, rfl, rfl⟩, trivial, ?_, ?_, ?_⟩
+  · exact Nat.le_refl _
+  · intro v hv; simp [initSys] at hv
+  · intro e he; simp [initSys] at he
+
+theorem inv_execAct (σ : Sys) (a : Act) (h : Inv σ) (ha : NoSnapAct a) : Inv (execAct σ a) := by
+  obtain ⟨hS, hwf, hsat⟩ := h
+  cases a with
+  | ev e =>
+    have o := step_ok σ.node (fromEntries σ.dur) σ.ghost e hS hwf hsat ha
+    simp only [execAct, Inv, fromEntries_recs]
+    exact ⟨o.sync, o.wf, (chain_end o.chain).1⟩
+  | crash e k =>
+    have o := step_ok σ.node (fromEntries σ.dur) σ.ghost e hS hwf hsat ha
+    have hp := chain_take o.chain k
+    simp only [execAct, Inv, fromEntries_recs]
+    have hr := restart_sync σ.node.id _ hp.2
+    exact ⟨hr.1, hr.2, hp.1⟩
+
+theorem inv_exec (σ : Sys) (as : List Act) (h : Inv σ) (ha : ∀ a ∈ as, NoSnapAct a) : Inv (exec σ as) := by
+  induction as generalizing σ with
+  | nil => exact h
+  | cons a as ih =>
+    simp only [exec, List.foldl_cons]
+    exact ih _ (inv_execAct σ a h (ha a (by simp))) (fun b hb => ha b (by simp [hb]))
+
+/-- the records of a micro prefix are a prefix of the records -/
+theorem recs_take (ms : List Micro) (k : Nat) :
+    recs (ms.take k) = (recs ms).take (recs (ms.take k)).length := by
+  induction ms generalizing k with
+  | nil => simp [recs]
+  | cons μ ms ih =>
+    cases k with
+    | zero => simp [recs]
+    | succ k =>
+      cases μ <;> simp only [List.take_succ_cons, recs, List.filterMap_cons] <;>
+        first
+        | (simp only [List.length_cons, List.take_succ_cons]; congr 1; exact ih k)
+        | exact ih k
+
+/-! the framed-log facts needed beyond Common/FramedLogLemmas: how replay of a cut log ENDS -/
+namespace FL
+open FramedLog
+variable (crc : List Nat → Nat) (dec : List Nat → Bool)
+
+theorem parse_torn_end (p : List Nat) (m : Nat) (hp : p.length < U32)
+    (hm : m < (encodeRec crc p).length) :
+    (parse crc dec ((encodeRec crc p).take m)).2 ≠ .badCrc := by
+  rw [encodeRec_length] at hm
+  rw [parse]
+  by_cases h8 : ((encodeRec crc p).take m).length < 8
+  · rw [dif_pos h8]; dsimp only; split <;> simp
+  · rw [dif_neg h8]
+    have hm8 : 8 ≤ m := by
+      simp only [List.length_take, encodeRec_length] at h8; omega
+    have e1 : ((encodeRec crc p).take m).take 4 = le32 p.length := by
+      rw [List.take_take]
+      have : min 4 m = 4 := by omega
+      rw [this]; simp [encodeRec, le32]
+    have e3 : (((encodeRec crc p).take m).drop 8).length = m - 8 := by
+      simp only [List.length_drop, List.length_take, encodeRec_length]; omega
+    simp only [e1, le32_rt _ hp, e3]
+    have : m - 8 < p.length := by omega
+    simp [this]
+
+theorem parse_take_end (ps : List (List Nat)) (n : Nat) (h : ∀ p ∈ ps, GoodRec crc dec p) :
+    (parse crc dec ((encodeAll crc ps).take n)).2 ≠ .badCrc := by
+  induction ps generalizing n with
+  | nil => simp [encodeAll, parse_nil]
+  | cons p ps ih =>
+    have hp := h p (by simp)
+    have henc : encodeAll crc (p :: ps) = encodeRec crc p ++ encodeAll crc ps := by simp [encodeAll]
+    rw [henc, List.take_append]
+    by_cases hle : (encodeRec crc p).length ≤ n
+    · rw [List.take_of_length_le hle, parse_cons crc dec p _ hp]
+      exact ih _ (fun q hq => h q (by simp [hq]))
+    · have hz : n - (encodeRec crc p).length = 0 := by omega
+      rw [hz, List.take_zero, List.append_nil]
+      exact parse_torn_end crc dec p n hp.1 (by omega)
+
+end FL
+
+/-! byte level -/
+open FramedLog
+
+section bytes
+variable (crc : List Nat → Nat) (ser : WalEntry → List Nat) (deser : List Nat → Option WalEntry)
+
+/-- what is assumed of the opaque serializer and of record sizes -/
+structure GoodSer : Prop where
+  rt : ∀ r, deser (ser r) = some r
+  len : ∀ r, (ser r).length < U32
+  crcb : ∀ p, crc p < U32
+
+def fileOf (d : List WalEntry) : List Nat := encodeAll crc (d.map ser)
+
+theorem goodrec_of (h : GoodSer crc ser deser) (d : List WalEntry) :
+    ∀ p ∈ d.map ser, GoodRec crc (fun p => (deser p).isSome) p := by
+  intro p hp
+  obtain ⟨r, _, rfl⟩ := List.mem_map.mp hp
+  exact ⟨h.len r, h.crcb _, by simp [h.rt r]⟩
+
+theorem filterMap_deser (h : GoodSer crc ser deser) (d : List WalEntry) : (d.map ser).filterMap deser = d := by
+  induction d with
+  | nil => rfl
+  | cons r d ih => simp [h.rt r, ih]
+
+/-- A crash that leaves any byte prefix of the file which still contains the already-synced part
+    `d` is a record-level crash: `recoverBytes` sees `d` plus the first `j` in-flight records,
+    never a checksum error, and the repaired file is again the encoding of exactly those records. -/
+theorem byte_cut (h : GoodSer crc ser deser) (d rs : List WalEntry) (n : Nat)
+    (hn : (fileOf crc ser d).length ≤ n) :
+    ∃ j, j ≤ rs.length ∧
+      (∃ e, recoverBytes crc deser ((fileOf crc ser (d ++ rs)).take n)
+            = .ok (fromEntries (d ++ rs.take j)) (d.length + j) e)
+      ∧ openRepair ((fileOf crc ser (d ++ rs)).take n) = fileOf crc ser (d ++ rs.take j) := by
+  have hg := goodrec_of crc ser deser h (d ++ rs)
+  let ps := (d ++ rs).map ser
+  let w := wholeWithin crc ps n
+  have hw1 : d.length ≤ w := by
+    apply wholeWithin_ge crc ps d.length n (by simp [ps])
+    have : ps.take d.length = d.map ser := by simp [ps]
+    rw [this]; exact hn
+  have hw2 : w ≤ ps.length := wholeWithin_le crc ps n
+  have htake : ps.take w = (d ++ rs.take (w - d.length)).map ser := by
+    simp only [ps, List.map_append, List.take_append, List.length_map, List.map_take]
+    congr 1
+    exact List.take_of_length_le (by simp; omega)
+  refine ⟨w - d.length, by simp [ps] at hw2; omega, ?_, ?_⟩
+  · have hp := parse_take crc (fun p => (deser p).isSome) ps n hg
+    have hend := FL.parse_take_end crc (fun p => (deser p).isSome) ps n hg
+    have hfm : (ps.take w).filterMap deser = d ++ rs.take (w - d.length) := by
+      rw [htake]; exact filterMap_deser crc ser deser h _
+    have hlen : (ps.take w).length = d.length + (w - d.length) := by
+      simp only [List.length_take]; omega
+    simp only [recoverBytes, fileOf]
+    generalize hpr : parse crc (fun p => (deser p).isSome) ((encodeAll crc ps).take n) = pr at *
+    obtain ⟨p1, p2⟩ := pr
+    simp only at hp hend
+    subst hp
+    cases p2 with
+    | badCrc => exact absurd rfl hend
+    | clean => exact ⟨.clean, by show Recovered.ok (fromEntries ((ps.take w).filterMap deser)) (ps.take w).length _ = _; rw [hfm, hlen]⟩
+    | torn => exact ⟨.torn, by show Recovered.ok (fromEntries ((ps.take w).filterMap deser)) (ps.take w).length _ = _; rw [hfm, hlen]⟩
+    | undecodable => exact ⟨.undecodable, by show Recovered.ok (fromEntries ((ps.take w).filterMap deser)) (ps.take w).length _ = _; rw [hfm, hlen]⟩
+  · have := openRepair_take crc ps n (fun p hp => (hg p hp).1)
+    simp only [fileOf]
+    rw [this, htake]
+
+end bytes
+
+end Neumann.RaftWal
